@@ -172,6 +172,17 @@ def gen_cases(rs, tier):
               disjoint(cycle(5), cycle(5)), disjoint(kab(1, 3), kab(1, 3)), disjoint(complete(4), complete(4)),
               disjoint(cycle(4), path(3)), disjoint(cycle(3), cycle(3), cycle(3))]:
         add('disjoint', G)
+    # the same kind of disjoint copies with randomly relabelled / interleaved nodes: with a repeated lambda_max LAPACK then returns
+    # mixed-sign combinations of the copies' Perron vectors, so non-negativity really depends on the abs()
+    bases = [disjoint(complete(3), complete(3)), disjoint(complete(3), complete(3), complete(3)), disjoint(complete(4), complete(4)),
+             disjoint(cycle(4), cycle(4)), disjoint(cycle(4), complete(3)), disjoint(cycle(5), cycle(5)), disjoint(kab(2, 3), kab(2, 3)),
+             disjoint(path(2), path(2), path(2)), disjoint(cycle(3), cycle(3)) * 2, disjoint(kab(1, 3), kab(1, 3)), disjoint(cube(), cube())]
+    for G in bases:
+        m = len(G)
+        perms = [np.argsort(np.arange(m) % 2, kind='stable'), np.argsort(np.arange(m) % 3, kind='stable')]   # perfect interleavings
+        perms += [rs.permutation(m) for _ in range(3 if quick else 12)]
+        for p_ in perms:
+            add('disjoint-shuffled', G[np.ix_(p_, p_)], ds=(0.85,))
     # weighted undirected connected
     for t in range(60 if quick else 300):
         n = int(rs.randint(3, 7))
@@ -529,7 +540,7 @@ def malformed_stream(bct):
 def main():
     ck = Check(PID)
     ck.cov['rule'] = ('cases = (graph, damping d, prior f): every connected labelled graph on <=5 nodes (thorough; one per isomorphism class plus a random '
-                      'labelled slice in quick), all graphs on <=4 nodes, cycles, K_{a,b}, regular graphs (circulants, K_n, cube, Petersen), disjoint copies, '
+                      'labelled slice in quick), all graphs on <=4 nodes, cycles, K_{a,b}, regular graphs (circulants, K_n, cube, Petersen), disjoint copies (block ordered and with interleaved / randomly shuffled node labels), '
                       'random weighted connected undirected and strongly connected directed graphs n=3..6, rational weights k/den (den=2..16: trees, cycles, pendant nodes, weak directed cycles with row/column strengths in (0,1)), d in {.5,.85,.99}; each case is run through '
                       'every routine whose domain contains it; non-trivial = distinct (graph, d, f) with at least one edge on which at least one routine returned')
     ck.assumptions += ['random-walk measures only on connected undirected / strongly connected directed inputs; spectral measures on symmetric non-negative input',
@@ -550,7 +561,7 @@ def main():
         ck.count('family:' + c['fam']); ck.count('n=%d' % len(A)); ck.count('timeouts', r['timeouts'])
         for o in r['ops']:
             ck.count('op:' + o)
-        ck.case(sample={'family': c['fam'], 'A': c['A'], 'den': c.get('den', 1), 'd': c['d'], 'falff': c['falff'], 'routines': sorted(set(r['ops']))} if nontriv and c['fam'] in ('cycle', 'strong-dir', 'disjoint', 'frac-dir', 'frac-pendant') else None,
+        ck.case(sample={'family': c['fam'], 'A': c['A'], 'den': c.get('den', 1), 'd': c['d'], 'falff': c['falff'], 'routines': sorted(set(r['ops']))} if nontriv and c['fam'] in ('cycle', 'strong-dir', 'disjoint', 'disjoint-shuffled', 'frac-dir', 'frac-pendant') else None,
                 nontrivial_key=digest([c['A'], c.get('den', 1), c['d'], c['falff']]) if nontriv else None)
         for kind, okc in r['contract']:
             ck.count('oracle_contract:%s:%s' % (kind, 'ok' if okc else 'FAILED'))
